@@ -1385,6 +1385,24 @@ std::string compare_ray(const std::vector<BCell> &cells, const Geo &g, const Ray
   for (int i = 0; i < 3; ++i)
     if (!std::isfinite(xend[i]))
       return fmt("final position[%d] = %g", i, xend[i]);
+  // The path the code itself took can be much longer than the oracle's when
+  // the ray runs inside a wall plane or along a cell edge (either adjacent
+  // column of cells is a legitimate choice, and the columns differ in
+  // opacity): the round-off of its position and of the sums below grows with
+  // the number of cells IT crossed and with ITS path length.
+  {
+    double minsize[3] = {DBL_MAX, DBL_MAX, DBL_MAX};
+    for (const BCell &bc : cells)
+      for (int i = 0; i < 3; ++i)
+        minsize[i] = std::min(minsize[i], (double)(bc.hi[i] - bc.lo[i]));
+    double ncross = 0.;
+    for (int i = 0; i < 3; ++i)
+      if (ray.d[i] != 0. && minsize[i] > 0. && minsize[i] < DBL_MAX)
+        ncross += std::abs((double)sdep * ray.d[i]) / minsize[i];
+    const double tol_own = 64. * EPS * (g.scale() + std::abs((double)sdep)) *
+                               (ncross + 8.) / dmin + extra_tol;
+    tol = std::max(tol, tol_own);
+  }
   // ---- tier A: self consistency of path, optical depth and final position
   // final position == start + (sum of deposited path) * direction (mod period)
   for (int i = 0; i < 3; ++i) {
